@@ -245,6 +245,49 @@ theorem spend_ok_appends (a a' : AccV) (env : Env) (h : a.spend env = .ok a') :
         subst h
         exact ⟨e, d, rfl, rfl, rfl⟩
 
+/-- folding `spend` over a list fails as soon as one entry is refused, whatever the state reached so far -/
+theorem foldlM_spend_error (prior : List (PyVal × PyVal)) (a : AccV)
+    (h : ∃ p ∈ prior, ¬ ValidBudget false (pairEnv p.1 p.2)) :
+    ∃ e, prior.foldlM (fun a p => a.spend (pairEnv p.1 p.2)) a = .error e := by
+  induction prior generalizing a with
+  | nil => obtain ⟨p, hp, -⟩ := h; cases hp
+  | cons q rest ih =>
+    simp only [List.foldlM_cons, bind, Except.bind]
+    cases hs : a.spend (pairEnv q.1 q.2) with
+    | error e => exact ⟨e, rfl⟩
+    | ok a' =>
+      obtain ⟨p, hp, hbad⟩ := h
+      rcases List.mem_cons.mp hp with rfl | hr
+      · obtain ⟨e, he⟩ := (accountant_refuses a _ hbad).2
+        rw [he] at hs; cases hs
+      · exact ih a' ⟨p, hr, hbad⟩
+
+/-- **C13 (accountant constructor with prior spends)**: `BudgetAccountant(epsilon, delta, spent_budget=[…])` raises —
+and so constructs nothing — as soon as ANY entry of the list is invalid, wherever it stands and however large the valid
+entries around it are (each entry is validated by itself, not through a composed total) -/
+theorem new_refuses_invalid_prior (ce cd : PyVal) (prior : List (PyVal × PyVal))
+    (h : ∃ p ∈ prior, ¬ ValidBudget false (pairEnv p.1 p.2)) : ∃ e, AccV.new ce cd prior = .error e := by
+  unfold AccV.new
+  simp only [bind, Except.bind]
+  cases runChain (pairEnv ce cd) (checkEpsilonDelta false) with
+  | error e => exact ⟨e, rfl⟩
+  | ok u =>
+    cases needReal ce with
+    | error e => exact ⟨e, rfl⟩
+    | ok x =>
+      cases needReal cd with
+      | error e => exact ⟨e, rfl⟩
+      | ok y => exact foldlM_spend_error prior _ h
+
+/-- … and an invalid ceiling is refused as well -/
+theorem new_refuses_invalid_ceiling (ce cd : PyVal) (prior : List (PyVal × PyVal))
+    (h : ¬ ValidBudget false (pairEnv ce cd)) : ∃ e, AccV.new ce cd prior = .error e := by
+  unfold AccV.new
+  simp only [bind, Except.bind]
+  cases hc : runChain (pairEnv ce cd) (checkEpsilonDelta false) with
+  | error e => exact ⟨e, rfl⟩
+  | ok u => exact absurd ((checkEpsilonDelta_ok_iff false _).mp hc) h
+
 /-- **C13 (tools and estimators)**: their first privacy-relevant statements are `check_bounds` and
 `accountant.check(epsilon, 0)`; an epsilon that is not a number, NaN, negative or zero never gets past them -/
 theorem tool_refuses (a : AccV) (bounds : Option (PyVal × PyVal)) (env : Env)
